@@ -341,8 +341,14 @@ func successWithoutCount(call *ssa.Call) string {
 		b := work[len(work)-1]
 		work = work[:len(work)-1]
 		if ret, ok := b.Instrs[len(b.Instrs)-1].(*ssa.Return); ok && len(ret.Results) > 0 {
-			if kc, ok := ret.Results[len(ret.Results)-1].(*ssa.Const); ok && kc.IsNil() {
+			last := ret.Results[len(ret.Results)-1]
+			if kc, ok := last.(*ssa.Const); ok && kc.IsNil() {
 				return "a success exit is reachable from the one-byte Read without the count having been found to be 1: at end of input a byte that was never read is handed on"
+			}
+			// ... or hands back the Read's own error without having found it non-nil: a Reader may answer
+			// (0, nil), and then a byte nobody read is reported with a nil error
+			if derivesFromCallErr(last, call, 0) && !errKnownNonNil(last, b) {
+				return "where the count was not found to be 1 the Read's own error is returned untested: a (0, nil) read (legal for an io.Reader) comes out as a zero byte with a nil error (io.ReadFull repeats such a read)"
 			}
 		}
 		for _, s := range b.Succs {
